@@ -55,7 +55,7 @@ def ty_of(e):
         return 'int' if ta == tb == 'int' else 'num'
     if k == 'neg':
         return ty_of(e[1])
-    if k in ('cmp', 'and', 'or', 'not'):
+    if k in ('cmp', 'and', 'or', 'not', 'blit'):
         return 'bool'
     if k == 'ite':
         ta, tb = ty_of(e[2]), ty_of(e[3])
@@ -73,7 +73,7 @@ def ty_of(e):
 
 def lit(v):
     if isinstance(v, bool):
-        raise Untranslatable('boolean literal')
+        return ('blit', v)
     if isinstance(v, int):
         return ('lit', Fraction(v), 'int')
     if isinstance(v, float):
@@ -138,6 +138,8 @@ def pr(e):
                     '>': '(lt %s %s)' % (y, x), '>=': '(le %s %s)' % (y, x),
                     '==': '(beq %s %s)' % (x, y), '!=': '(!(beq %s %s))' % (x, y)}[op]
         raise Untranslatable('comparison of %s with %s' % (ta, tb))
+    if k == 'blit':
+        return 'true' if e[1] else 'false'
     if k == 'and':
         return '(' + ' && '.join(pr(x) for x in e[1]) + ')'
     if k == 'or':
@@ -225,6 +227,9 @@ class ClassUnit:
         if not self.methods:
             raise Untranslatable('class %s not found in %s' % (cls, path))
         self.attr_types = attr_types          # python attr -> type
+        self.callables = {}                   # python property -> (Lean call text, type): kept as calls, not inlined
+        self.base_fields = None
+        self.deps = set()
         self.obj_types = obj_types or {}      # type name -> {attr: (lean field, type)}
         self.depth_limit = depth_limit
 
@@ -249,6 +254,11 @@ class ClassUnit:
                 if n.attr in ctx.fields:
                     return ctx.fields[n.attr]
                 if self.is_property(n.attr):
+                    if n.attr in self.callables and self.base_fields is not None and \
+                            all(ctx.fields[k] is self.base_fields[k] for k in self.base_fields):
+                        # the object is still as it was on entry: refer to the translated property by name
+                        self.deps.add(n.attr)
+                        return V(self.callables[n.attr][0], self.callables[n.attr][1])
                     return self.inline_property(n.attr, ctx, depth)
                 raise Untranslatable('unknown attribute self.%s' % n.attr)
             base = self.ev(n.value, ctx, depth)
@@ -286,9 +296,16 @@ class ClassUnit:
             parts = []
             left = self.ev(n.left, ctx, depth)
             for op, rn in zip(n.ops, n.comparators):
+                right = self.ev(rn, ctx, depth)
+                if isinstance(op, (ast.Is, ast.IsNot)):
+                    # `x is None` / `x is not None` with a statically typed x
+                    tl, tr = ty_of(left), ty_of(right)
+                    if 'none' not in (tl, tr) or len(n.ops) != 1:
+                        raise Untranslatable('identity comparison')
+                    same = (tl == tr == 'none')
+                    return ('blit', same if isinstance(op, ast.Is) else not same)
                 if type(op) not in ops:
                     raise Untranslatable('comparison %s' % type(op).__name__)
-                right = self.ev(rn, ctx, depth)
                 parts.append(('cmp', ops[type(op)], left, right))
                 left = right
             return parts[0] if len(parts) == 1 else ('and', parts)
@@ -417,6 +434,8 @@ class ClassUnit:
             return self.run(rest, ctx, depth)
         if isinstance(s, ast.If):
             c = self.truth(self.ev(s.test, ctx, depth))
+            if c[0] == 'blit':
+                return self.run((list(s.body) if c[1] else list(s.orelse)) + rest, ctx, depth)
             return ('if', c, self.run(list(s.body) + rest, ctx.copy(), depth), self.run(list(s.orelse) + rest, ctx.copy(), depth))
         if isinstance(s, ast.Return):
             return ('ret', None if s.value is None else self.ev(s.value, ctx, depth), ctx)
@@ -541,3 +560,337 @@ def record_update(selfvar, fieldmap, fields0, fields1, attr_types):
     if not ups:
         return selfvar
     return '{ %s with %s }' % (selfvar, ', '.join(ups))
+
+
+# ------------------------------------------------------------------------------------------------------------
+# units
+
+class Fn:
+    """one translated function: python method -> Lean definition `Qs.Gen.<ns>.<lean>` and its tie theorem"""
+
+    def __init__(self, py, lean, kind, params=(), ret=None, model=None, hyp=None, model_args=None):
+        self.py, self.lean, self.kind = py, lean, kind
+        self.params = list(params)      # (python name, type, lean binder name)
+        self.ret = ret                  # 'num' | 'int' | 'bool' for kind 'pure'
+        self.model = model              # fully qualified model function the tie theorem compares with
+        self.hyp = hyp                  # extra hypothesis of the tie theorem (Lean text) or None
+        self.model_args = model_args    # argument text for the model side (default: same binders)
+
+
+def lean_type(t, objs):
+    if t == 'num':
+        return 'α'
+    if t == 'int':
+        return 'Int'
+    if t == 'bool':
+        return 'Bool'
+    if t == 'str':
+        return 'String'
+    if t.startswith('obj:'):
+        return objs[t[4:]]
+    raise Untranslatable('lean type of %s' % t)
+
+
+class Unit:
+    def __init__(self, ns, path, cls, self_type, self_var, fieldmap, fns, obj_types=None, obj_lean=None, ctor_fields=None,
+                 imports=('QsModel.Position',), model_defs=()):
+        self.ns, self.path, self.cls = ns, path, cls
+        self.self_type, self.self_var = self_type, self_var
+        self.fieldmap = fieldmap            # python attr -> (lean field, type)
+        self.fns = fns
+        self.obj_types = obj_types or {}
+        self.obj_lean = obj_lean or {}      # obj type -> Lean type text
+        self.ctor_fields = ctor_fields      # for `cls(...)`: ordered list of python __init__ parameter names
+        self.imports = imports
+        self.model_defs = list(model_defs)  # model definitions the tie tactic may unfold
+
+    def translate(self):
+        """-> (list of (Fn, lean def text | None, reason | None))"""
+        out = []
+        try:
+            cu = ClassUnit(self.path, self.cls, {a: t for a, (f, t) in self.fieldmap.items()}, self.obj_types)
+        except (Untranslatable, OSError, SyntaxError) as e:
+            return [(fn, None, 'class not readable: %s' % e) for fn in self.fns]
+        unit = self
+
+        # `cls(...)` constructor calls
+        orig_ev_call = cu.ev_call
+
+        def ev_call(n, ctx, depth):
+            f = n.func
+            if isinstance(f, ast.Name) and f.id == 'cls' and unit.ctor_fields:
+                args = [cu.ev(a, ctx, depth) for a in n.args]
+                if n.keywords or len(args) != len(unit.ctor_fields):
+                    raise Untranslatable('constructor call shape')
+                flds = []
+                for pyname, v in zip(unit.ctor_fields, args):
+                    lf, t = unit.fieldmap[pyname]
+                    got = ty_of(v)
+                    if got != t and not (t == 'num' and got == 'int'):
+                        raise Untranslatable('constructor argument %s : %s given a %s' % (pyname, t, got))
+                    flds.append((lf, t, v))
+                return ('struct', unit.self_type, flds)
+            return orig_ev_call(n, ctx, depth)
+        cu.ev_call = ev_call
+
+        for fn in self.fns:
+            if fn.kind == 'pure' and not fn.params:
+                cu.callables[fn.py] = ('(Qs.Gen.%s.%s %s)' % (self.ns, fn.lean, self.self_var), fn.ret)
+        for fn in self.fns:
+            cu.deps = set()
+            try:
+                if fn.py not in cu.methods:
+                    raise Untranslatable('method %s.%s not found' % (self.cls, fn.py))
+                m = cu.methods[fn.py]
+                pyparams = [a.arg for a in m.args.args][1:]
+                want = [p[0] for p in fn.params]
+                if pyparams[:len(want)] != want:
+                    raise Untranslatable('signature of %s is (%s), expected (%s)' % (fn.py, ', '.join(pyparams), ', '.join(want)))
+                fields = {a: V('%s.%s' % (self.self_var, f), t) for a, (f, t) in self.fieldmap.items()}
+                cu.base_fields = fields
+                saved = cu.callables.pop(fn.py, None)      # a function never refers to itself
+                args = [V(b, t) for (_n, t, b) in fn.params]
+                ctx0 = Ctx(cu, dict(fields), {})
+                if fn.kind == 'ctor':
+                    ctx0.self_name = 'cls'
+                tree = cu.run_method(fn.py, args, {}, ctx0, 0)
+                binders = ''
+                if fn.kind != 'ctor':
+                    binders += ' (%s : %s)' % (self.self_var, self.self_type)
+                for (_n, t, b) in fn.params:
+                    binders += ' (%s : %s)' % (b, lean_type(t, self.obj_lean))
+                attr_types = {a: t for a, (f, t) in self.fieldmap.items()}
+
+                def rec(leaf_tree):
+                    return record_update(self.self_var, self.fieldmap, fields, leaf_tree[2].fields, attr_types)
+
+                if fn.kind == 'pure':
+                    def leaf(t):
+                        if t[0] == 'raise':
+                            raise Untranslatable('raise in a pure function')
+                        if t[2].fields != fields:
+                            raise Untranslatable('attribute write in a pure function')
+                        if t[1] is None:
+                            raise Untranslatable('no return value')
+                        return as_num(t[1]) if fn.ret == 'num' else pr(t[1])
+                    rty = lean_type(fn.ret, self.obj_lean)
+                elif fn.kind == 'mut':
+                    def leaf(t):
+                        if t[0] == 'raise':
+                            raise Untranslatable('raise in a non-raising mutator')
+                        return rec(t)
+                    rty = self.self_type
+                elif fn.kind == 'mutexc':
+                    def leaf(t):
+                        if t[0] == 'raise':
+                            return '(%s, some %s)' % (rec(t), ERR[t[1]])
+                        return '(%s, none)' % rec(t)
+                    rty = '%s × Option Err' % self.self_type
+                elif fn.kind == 'ctor':
+                    def leaf(t):
+                        if t[0] == 'raise' or t[1] is None or t[1][0] != 'struct':
+                            raise Untranslatable('constructor must return cls(...)')
+                        return pr(t[1])
+                    rty = self.self_type
+                else:
+                    raise Untranslatable('kind %s' % fn.kind)
+                body = pr_tree(tree, leaf, 1)
+                text = 'def %s%s : %s :=\n  %s\n' % (fn.lean, binders, rty, body)
+                fn.deps = sorted(cu.deps)
+                out.append((fn, text, None))
+            except Untranslatable as e:
+                fn.deps = []
+                out.append((fn, None, str(e)))
+            except RecursionError:
+                fn.deps = []
+                out.append((fn, None, 'recursion limit'))
+            finally:
+                if fn.kind == 'pure' and not fn.params and fn.py not in cu.callables:
+                    cu.callables[fn.py] = ('(Qs.Gen.%s.%s %s)' % (self.ns, fn.lean, self.self_var), fn.ret)
+        # a property that could not be translated cannot be referred to: re-translate its users with it inlined
+        bad = set(fn.py for fn, text, why in out if text is None)
+        if bad and any(set(fn.deps) & bad for fn, text, why in out if text is not None):
+            for fn in self.fns:
+                pass
+            out = [(fn, (None if set(fn.deps) & bad else text), ('depends on an untranslatable property' if set(fn.deps) & bad and text else why))
+                   for fn, text, why in out]
+        # dependency order
+        by_py = {fn.py: (fn, text, why) for fn, text, why in out}
+        ordered, seen = [], set()
+
+        def visit(py):
+            if py in seen or py not in by_py:
+                return
+            seen.add(py)
+            for d in by_py[py][0].deps:
+                visit(d)
+            ordered.append(by_py[py])
+        for fn in self.fns:
+            visit(fn.py)
+        return ordered
+
+    def tie_statement(self, fn):
+        binders, args = '', []
+        if fn.kind != 'ctor':
+            binders += ' (%s : %s)' % (self.self_var, self.self_type)
+            args.append(self.self_var)
+        for (_n, t, b) in fn.params:
+            binders += ' (%s : %s)' % (b, lean_type(t, self.obj_lean))
+            args.append(b)
+        hyp = (' (h : %s)' % fn.hyp) if fn.hyp else ''
+        margs = fn.model_args if fn.model_args is not None else ' '.join(args)
+        return 'theorem tie_%s_%s%s%s :\n    Qs.Gen.%s.%s %s = %s %s' % (
+            self.ns, fn.lean, binders, hyp, self.ns, fn.lean, ' '.join(args), fn.model, margs)
+
+
+POSITION = Unit(
+    ns='Position', path='qstrader/broker/portfolio/position.py', cls='Position',
+    self_type='Qs.Position α', self_var='p',
+    fieldmap=dict(asset=('asset', 'str'), current_price=('price', 'num'), current_dt=('clock', 'int'),
+                  buy_quantity=('buyQ', 'num'), sell_quantity=('sellQ', 'num'), avg_bought=('avgB', 'num'),
+                  avg_sold=('avgS', 'num'), buy_commission=('comB', 'num'), sell_commission=('comS', 'num')),
+    ctor_fields=['asset', 'current_price', 'current_dt', 'buy_quantity', 'sell_quantity', 'avg_bought', 'avg_sold',
+                 'buy_commission', 'sell_commission'],
+    obj_types=dict(Txn=dict(asset=('asset', 'str'), quantity=('qty', 'int'), dt=('time', 'int'), price=('price', 'num'),
+                            commission=('commission', 'num'))),
+    obj_lean=dict(Txn='Qs.Txn α'),
+    model_defs=['Qs.Position.net', 'Qs.Position.marketValue', 'Qs.Position.avgPrice', 'Qs.Position.totalBought',
+                'Qs.Position.totalSold', 'Qs.Position.netTotal', 'Qs.Position.commission', 'Qs.Position.netInclCommission',
+                'Qs.Position.realised', 'Qs.Position.unrealised', 'Qs.Position.totalPnl', 'Qs.Position.updatePrice',
+                'Qs.Position.transactBuy', 'Qs.Position.transactSell', 'Qs.Position.transact', 'Qs.Position.openFrom'],
+    fns=[
+        Fn('net_quantity', 'net', 'pure', ret='num', model='Qs.Position.net'),
+        Fn('market_value', 'marketValue', 'pure', ret='num', model='Qs.Position.marketValue'),
+        Fn('avg_price', 'avgPrice', 'pure', ret='num', model='Qs.Position.avgPrice'),
+        Fn('total_bought', 'totalBought', 'pure', ret='num', model='Qs.Position.totalBought'),
+        Fn('total_sold', 'totalSold', 'pure', ret='num', model='Qs.Position.totalSold'),
+        Fn('net_total', 'netTotal', 'pure', ret='num', model='Qs.Position.netTotal'),
+        Fn('commission', 'commission', 'pure', ret='num', model='Qs.Position.commission'),
+        Fn('net_incl_commission', 'netInclCommission', 'pure', ret='num', model='Qs.Position.netInclCommission'),
+        Fn('realised_pnl', 'realised', 'pure', ret='num', model='Qs.Position.realised'),
+        Fn('unrealised_pnl', 'unrealised', 'pure', ret='num', model='Qs.Position.unrealised'),
+        Fn('total_pnl', 'totalPnl', 'pure', ret='num', model='Qs.Position.totalPnl'),
+        Fn('update_current_price', 'updatePrice', 'mutexc', params=[('market_price', 'num', 'price'), ('dt', 'int', 't')],
+           model='Qs.Position.updatePrice'),
+        Fn('_transact_buy', 'transactBuy', 'mut', params=[('quantity', 'num', 'q'), ('price', 'num', 'price'), ('commission', 'num', 'c')],
+           model='Qs.Position.transactBuy'),
+        Fn('_transact_sell', 'transactSell', 'mut', params=[('quantity', 'num', 'q'), ('price', 'num', 'price'), ('commission', 'num', 'c')],
+           model='Qs.Position.transactSell'),
+        Fn('transact', 'transact', 'mutexc', params=[('transaction', 'obj:Txn', 't')], model='Qs.Position.transact',
+           hyp='p.asset = t.asset'),
+        Fn('open_from_transaction', 'openFrom', 'ctor', params=[('transaction', 'obj:Txn', 't')], model='Qs.Position.openFrom'),
+    ])
+
+UNITS = [POSITION]
+
+HEADER = '''/-
+  GENERATED by harness/translate.py from %s (working tree of the repository) — do not edit.
+  Each definition is the symbolic execution of the Python method of the same name.
+-/
+%s
+
+namespace Qs.Gen
+open NumOps Num
+
+section
+variable {α : Type} [Add α] [Sub α] [Mul α] [Div α] [Neg α] [NumOps α]
+
+namespace %s
+
+'''
+
+
+TIE_HEAD = ('/-\n  GENERATED by harness/translate.py — the tie obligations `Gen.f = Qs.f` for %s.\n'
+            '  The statements are fixed by the translator\'s unit table; the proofs are the fixed tactic `qs_tie`.\n-/\n'
+            'import QsGen.%s\nimport QsProofs.Tie.Tactic\n\nset_option linter.unusedTactic false\n'
+            'set_option linter.unreachableTactic false\nset_option linter.unusedSectionVars false\n'
+            'set_option linter.unusedSimpArgs false\nset_option linter.unusedVariables false\n\nopen NumOps Num\n\n'
+            'namespace Qs.Tie\n\n'
+            'variable {α : Type} [Field α] [LinearOrder α] [IsStrictOrderedRing α] [FloorRing α] [NumOps α] [LawfulNumOps α]\n\n')
+
+
+def projections(u, fn):
+    """[(suffix, lhs/rhs projection text)] for the component-wise tie obligations of a state-returning function"""
+    if fn.kind == 'mutexc':
+        return [(f, '.1.%s' % f) for a, (f, t) in u.fieldmap.items()] + [('err', '.2')]
+    if fn.kind in ('mut', 'ctor'):
+        return [(f, '.%s' % f) for a, (f, t) in u.fieldmap.items()]
+    return []
+
+
+def generate(outdir=None, verbose=False, omit_defs=(), omit_thms=()):
+    """writes lean/QsGen/<Unit>.lean and lean/QsProofs/Tie/<Unit>Gen.lean from the repository's working tree.
+    `omit_defs`: keys whose generated definition did not typecheck (treated as not translatable);
+    `omit_thms`: theorem names whose proof did not check (left out so that the module builds and the others can be audited).
+    Returns {key: dict(translated, theorem(s), spans…)}; keys are `<Unit>.<fn>` and `<Unit>.<fn>#<component>`."""
+    outdir = outdir or LEAN
+    status = {}
+    os.makedirs(os.path.join(outdir, 'QsGen'), exist_ok=True)
+    os.makedirs(os.path.join(outdir, 'QsProofs', 'Tie'), exist_ok=True)
+    for u in UNITS:
+        res = u.translate()
+        gen = HEADER % (u.path, '\n'.join('import %s' % i for i in u.imports), u.ns)
+        tie = TIE_HEAD % (u.path, u.ns)
+        lean_of = {f.py: f.lean for f in u.fns}
+        dropped = set()       # python names without a usable definition
+        for fn, text, why in res:
+            key = '%s.%s' % (u.ns, fn.lean)
+            if text is not None and key in omit_defs:
+                text, why = None, 'the generated definition does not typecheck'
+            if text is not None and set(fn.deps) & dropped:
+                text, why = None, 'refers to a property that is not translatable'
+            if text is None:
+                dropped.add(fn.py)
+                status[key] = dict(translated=False, reason=why, python='%s.%s' % (u.cls, fn.py), file=u.path, unit=u.ns)
+                gen += '-- %s.%s: not translatable (%s)\n\n' % (u.cls, fn.py, why)
+                for suf, _ in projections(u, fn):
+                    status[key + '#' + suf] = dict(status[key])
+                continue
+            g0 = gen.count('\n') + 1
+            gen += '/-- `%s.%s` -/\n%s\n' % (u.cls, fn.py, text)
+            core = ['Qs.Gen.%s.%s' % (u.ns, fn.lean)] + ['tie_%s_%s' % (u.ns, lean_of[d]) for d in fn.deps] + [fn.model]
+            extra = [d for d in u.model_defs if d not in core]
+            stmts = [(key, 'tie_%s_%s' % (u.ns, fn.lean), u.tie_statement(fn))]
+            for suf, proj in projections(u, fn):
+                st = u.tie_statement(fn)
+                head, eq = st.rsplit(':\n', 1)
+                lhs, rhs = eq.strip().split(' = ', 1)
+                stmts.append((key + '#' + suf, 'tie_%s_%s__%s' % (u.ns, fn.lean, suf),
+                              '%s:\n    (%s)%s = (%s)%s' % (head.replace('tie_%s_%s' % (u.ns, fn.lean), 'tie_%s_%s__%s' % (u.ns, fn.lean, suf)),
+                                                         lhs, proj, rhs, proj)))
+            for k2, name, st in stmts:
+                full = 'Qs.Tie.' + name
+                ent = dict(translated=True, python='%s.%s' % (u.cls, fn.py), file=u.path, unit=u.ns, theorem=full, model=fn.model,
+                           def_span=[g0, gen.count('\n')])
+                if full in omit_thms or any(('Qs.Tie.tie_%s_%s' % (u.ns, lean_of[d])) in omit_thms for d in fn.deps):
+                    ent['proved'] = False
+                    tie += '-- %s: the proof does not check against the current source\n\n' % name
+                else:
+                    t0 = tie.count('\n') + 1
+                    tie += '%s := by\n  first\n  | qs_tie [%s]\n  | qs_tie [%s]\n\n' % (st, ', '.join(core), ', '.join(core + extra))
+                    ent['thm_span'] = [t0, tie.count('\n')]
+                status[k2] = ent
+        gen += 'end %s\n\nend\nend Qs.Gen\n' % u.ns
+        tie += 'end Qs.Tie\n'
+        _write_if_changed(os.path.join(outdir, 'QsGen', u.ns + '.lean'), gen)
+        _write_if_changed(os.path.join(outdir, 'QsProofs', 'Tie', u.ns + 'Gen.lean'), tie)
+    if verbose:
+        for k, v in status.items():
+            if '#' not in k:
+                print(k, 'ok' if v['translated'] else 'UNTRANSLATABLE: ' + v['reason'])
+    return status
+
+
+def _write_if_changed(path, text):
+    try:
+        if open(path).read() == text:
+            return
+    except OSError:
+        pass
+    with open(path, 'w') as f:
+        f.write(text)
+
+
+if __name__ == '__main__':
+    st = generate(verbose=True)
+    json.dump(st, sys.stdout if '--json' in sys.argv else open(os.devnull, 'w'), indent=1)
